@@ -46,7 +46,11 @@ def run(ctx):
                 pv = possible_variants(ctx, p, ("field", base, "status"), STATUS, before=i)
                 if pv is not None and "Rejected" not in pv:
                     close_refuses_rejected = True
-    for variant, ps in sorted(groups.items(), key=lambda x: str(x[0])):
+    # a finding is identified by the call site that fails: a new message that reaches the very write of Propose / Vote (a batch form
+    # calling the same handler) is the same finding, not another one
+    site_owner = {}
+    order = sorted(groups.items(), key=lambda x: (str(x[0]) not in ("Propose", "Vote"), str(x[0])))
+    for variant, ps in order:
         key = "execute/%s" % variant
         for p in ps:
             if p.is_err():
@@ -119,7 +123,8 @@ def run(ctx):
                     ctx.ob("R15.3", key + "/no refund elsewhere", not refunds, sites=[e.site],
                            detail="refund emitted on a path that neither executes nor closes the proposal")
                     if cs_call(st) is not None and close_refuses_rejected:
-                        ctx.ob("R15.4", "cw3_flex_multisig::execute/%s persists a possibly-Rejected status without refund" % variant, False,
+                        owner = site_owner.setdefault(tuple(e.site), variant)
+                        ctx.ob("R15.4", "cw3_flex_multisig::execute/%s persists a possibly-Rejected status without refund" % owner, False,
                                sites=[e.site],
                                detail="%s stores status := current_status(..), which evaluates to Rejected when the proposal is voted down "
                                       "(or is created already expired); Close refuses proposals whose stored status is Rejected "
@@ -127,7 +132,8 @@ def run(ctx):
             for i, e in creating:
                 st = field_of(e.value, "status")
                 if cs_call(st) is not None and close_refuses_rejected:
-                    ctx.ob("R15.4", "cw3_flex_multisig::execute/%s persists a possibly-Rejected status without refund" % variant, False,
+                    owner = site_owner.setdefault(tuple(e.site), variant)
+                    ctx.ob("R15.4", "cw3_flex_multisig::execute/%s persists a possibly-Rejected status without refund" % owner, False,
                            sites=[e.site],
                            detail="%s stores status := current_status(..) at creation, which is Rejected when `latest` is already expired; "
                                   "Close refuses stored-Rejected proposals, so the deposit just taken can never be reclaimed" % variant)
